@@ -109,13 +109,16 @@ def _multiset_diff(a, b):
 
 
 def expected_skeleton(mol):
-    """Skeleton of a constructed item molecule (item['mol'])."""
+    """Skeleton of a constructed item molecule (item['mol']); written-out hydrogens are folded into the counts."""
     skel = nx.Graph()
     for idx, atom in enumerate(mol["atoms"]):
         if "name" in atom:
             skel.add_node(idx, label=(atom["name"],))
+        elif atom["el"] == "H":
+            continue
         else:
             skel.add_node(idx, label=(atom["el"], int(atom["charge"]), int(mol["hcount"][idx])))
     for i, j, order in mol["bonds"]:
-        skel.add_edge(i, j, order=_norm_order(order))
+        if i in skel and j in skel:
+            skel.add_edge(i, j, order=_norm_order(order))
     return skel
